@@ -168,10 +168,36 @@ def rule_ambient(chk, cg, comp, reach):
         reach_wo = cfg.reachable_from(0, avoid_edges=edges) if edges else set(range(cfg.n))
         for bb, t in sites:
             ok = bool(edges) and bb not in reach_wo
+            if not ok:
+                # the calls may sit in a helper that is itself only called under the test (`compile_metal_bytecode(..)`)
+                ok = called_only_under(f, reach, p, "Target", idx, 3)
             chk.ob("C07.ambient/metal-gate/%s" % short(cfg.callee(t)), ok,
                    "only under Target::MetalBytecode" if ok else
                    "%s calls %s without being dominated by the Target::MetalBytecode test: the external Metal compiler "
                    "(a process, the file system) would influence other targets" % (short(p), cfg.callee(t)), where(b, t.get("ln")))
+
+
+def called_only_under(f, reach, path, adt_short, index, depth):
+    """Is every call of `path` (from a function reachable from compile, outside metal_invoker) made only on the edge where
+    the enum <adt_short> has variant <index> - directly, or in a function for which the same holds?"""
+    if depth == 0:
+        return False
+    found = False
+    for q in sorted(reach):
+        b = f.bodies.get(q)
+        if b is None or "mir" not in b or b["crate"] == "metal_invoker" or q == path:
+            continue
+        cfg = M.Cfg(b)
+        sites = [bb for bb, t in cfg.calls() if cfg.callee(t) == path]
+        if not sites:
+            continue
+        found = True
+        edges = discr_value_edges(cfg, adt_short, index)
+        reach_wo = cfg.reachable_from(0, avoid_edges=edges) if edges else set(range(cfg.n))
+        for bb in sites:
+            if not (edges and bb not in reach_wo) and not called_only_under(f, reach, b.get("parent") or q, adt_short, index, depth - 1):
+                return False
+    return found
 
 
 def discr_value_edges(cfg, adt_short, index):
